@@ -262,6 +262,7 @@ ADDENDA = {
 
 # fourth round
 ADDENDA2 = {
+    "C02": " Added: D8.independent (linear scale and conformal correction of integrate()/getQuadratureWeights() never depend on each other, shared with C10-D6), D9.workset (the set behind getGlobalPolynomialSpace is the set the weights are computed for, shared with C03-D4).",
     "C01": " D4.tree also covers dropping the needed points of a grid without loaded points (F86). Added: D10.restart (dependence analysis of the GMRES restart loop: every cycle starts from the residual of the current iterate, the iterate changes only through the Krylov reconstruction, F88).",
     "C04": " D6.tree as in C01 (F86). Added: D11.restart (as C01-D10, F88: the transposed solve behind the weights), D12.vandermonde (entries of the Kronecker 1-D matrices are values of the basis evaluate() uses).",
     "C06": " Added: D6 orders precision(17) before every floating point field; D12.nodes (Sequence node cache covers every converted index set); D13.perdim (per-dimension members rebuilt only from a non-empty set, F85).",
